@@ -113,6 +113,12 @@ pub fn singles(tier: Tier) -> Vec<Hostile> {
         v.push(Hostile { desc: format!("type {} + seq", ty), bytes: vec![ty, 0] });
         v.push(Hostile { desc: format!("type {} + truncated 8-byte varint", ty), bytes: vec![ty, 0xff, 0xff] });
     }
+    // sequence numbers that fall below / between / above the pending ack ranges of the prepared states
+    for seq in [5u64, 995, 1005, 1325, 1625, 1631, 2000] {
+        v.push(small(1, seq, 0, 0, &[]));
+        v.push(small(0, seq, 1, 0, &[]));
+        v.push(ack(seq, 3, 0, 0, &[]));
+    }
     let seqs = [0u64, 1, U62];
     let chs = [0u8, 1, 2, 7, 255];
     let ids = [0u64, 1, 2, 3, U62];
@@ -146,7 +152,7 @@ pub fn singles(tier: Tier) -> Vec<Hostile> {
                 for &id in &[0u64, 1, 3, U62] {
                     for &n in &[0u64, 1, 2, 3, 80, 84, 1_000_000, 1_000_001, U62] {
                         for idx in [0u64, 1, n.wrapping_sub(1) & U62, n, (n + 1) & U62, U62] {
-                            for (alen, present) in [(0u64, 0usize), (1, 1), (1199, 1199), (1200, 1200), (1201, 1201), (1200, 5)] {
+                            for (alen, present) in [(0u64, 0usize), (1, 1), (1199, 1199), (1200, 1200), (1201, 1201), (1290, 1290), (1200, 5)] {
                                 if tier == Tier::Quick && (seq == U62 && ch != 1) {
                                     continue;
                                 }
@@ -212,7 +218,7 @@ pub fn family(tier: Tier) -> Vec<(u64, u64, usize)> {
     let ns: Vec<u64> = tier.pick(vec![1, 2, 3, 80], vec![1, 2, 3, 4, 80, 1000]);
     for &n in &ns {
         for idx in [0u64, 1, 2, 3, 5] {
-            for len in tier.pick(vec![1usize, 1200], vec![1usize, 1199, 1200]) {
+            for len in tier.pick(vec![1usize, 1200, 1290], vec![1usize, 1199, 1200, 1201, 1290]) {
                 f.push((idx, n, len));
             }
         }
@@ -363,7 +369,7 @@ impl Target {
     }
 }
 
-pub const STATE_NAMES: [&str; 7] = [
+pub const STATE_NAMES: [&str; 8] = [
     "fresh",
     "mid-reassembly",
     "buffered-undrained",
@@ -371,6 +377,7 @@ pub const STATE_NAMES: [&str; 7] = [
     "unacked+sent-map",
     "64-pending-ranges",
     "combined",
+    "receive-channels-2400-below-budget",
 ];
 
 /// builds prepared state `si` for the client (role 0) or the server (role 1) as target
@@ -418,7 +425,7 @@ pub fn prepared(role: usize, si: usize) -> Target {
     };
     let do_ranges = |l: &mut Link| {
         for i in 0..64u64 {
-            let b = small(1, 1000 + 2 * i, 0, 0, &[]).bytes;
+            let b = small(1, 1000 + 10 * i, 0, 0, &[]).bytes;
             if t == 0 {
                 l.ends.a.process_packet(&b);
             } else {
@@ -426,8 +433,27 @@ pub fn prepared(role: usize, si: usize) -> Target {
             }
         }
     };
+    // every receive channel is left exactly 2400 bytes (one 2-slice reservation) below its budget
+    let do_nearly_full = |l: &mut Link| {
+        for ch in 0..3u8 {
+            let mut left = BUDGET - 2400;
+            while left > 0 {
+                let n = left.min(1200);
+                let _ = l.send(h, ch, n);
+                left -= n;
+            }
+        }
+        for _ in 0..6 {
+            let _ = l.update(h, 100);
+            let first = l.flush(h).unwrap();
+            for p in first..l.emitted.len() {
+                let _ = l.deliver(h, p);
+            }
+        }
+    };
     match si {
         0 => {}
+        7 => do_nearly_full(&mut l),
         1 => do_mid(&mut l, 0),
         2 => do_buffered(&mut l),
         3 => {
@@ -491,7 +517,7 @@ pub fn run(tier: Tier) -> i32 {
     rep.rule("sweeps over hostile histories injected into 7 prepared states (fresh, mid-reassembly, buffered, after drains, unacked + sent-packet map, 64 pending ack ranges, combined) of a client endpoint and of a server-side connection: (1) every single packet of a hand-assembled boundary-value alphabet (types, sequence, channel id, announced counts, ids, lengths, slice index / count / payload length, ack shapes, non-minimal varints, truncations); (2) every pair and (3) every triple over the slice family {index} x {count} x {payload length} of one message id on the reliable-ordered, reliable-unordered and unreliable channel; oracle: no unwind, status connected or disconnected-with-reason, receive accounting within [0,budget] (hook), every other API call still returns, the server's other connection completes a reliable exchange");
     rep.assume("packets are assembled by the harness's own varint writer (so unencodable values can be produced); states are prepared through honest traffic of the real peer endpoint");
     let singles = singles(tier);
-    let states: Vec<(usize, usize, Target)> = (0..2).flat_map(|r| (0..7).map(move |s| (r, s, prepared(r, s)))).collect();
+    let states: Vec<(usize, usize, Target)> = (0..2).flat_map(|r| (0..8).map(move |s| (r, s, prepared(r, s)))).collect();
     // (1) singles x states
     let n = singles.len() * states.len();
     let r = explore::sweep(n, |i| {
@@ -526,7 +552,7 @@ pub fn run(tier: Tier) -> i32 {
     let fl = fam.len();
     let words = fl.pow(depth as u32);
     let targets: Vec<(u8, u8)> = vec![(2, 1), (2, 2), (3, 0)]; // (packet type, channel)
-    let fstates: Vec<usize> = vec![0, 1, 6]; // fresh, mid-reassembly, combined
+    let fstates: Vec<usize> = vec![0, 1, 6, 7]; // fresh, mid-reassembly, combined, nearly full
     let total = words * targets.len() * fstates.len() * 2;
     let r = explore::sweep(total, |i| {
         let w = i % words;
@@ -545,7 +571,7 @@ pub fn run(tier: Tier) -> i32 {
             pk.push(slice_pkt(ty, 50 + k as u64, ch, id, idx, n, len as u64, len));
         }
         let refs: Vec<&Hostile> = pk.iter().collect();
-        let base = &states[role * 7 + st].2;
+        let base = &states[role * 8 + st].2;
         let (o, v) = run_case(base, &refs);
         (h64(&(o, ty, ch, st, role, w % 17)), v)
     });
@@ -613,7 +639,7 @@ pub fn replay(j: &J) -> i32 {
     println!(
         "target: {} in state '{}'; injecting {} packet(s)",
         if role == 0 { "RenetClient::process_packet" } else { "RenetServer::process_packet_from" },
-        STATE_NAMES[state.min(6)],
+        STATE_NAMES[state.min(7)],
         pk.len()
     );
     if let Some(t) = j.get("packets_text").and_then(|a| a.as_arr()) {
@@ -621,7 +647,7 @@ pub fn replay(j: &J) -> i32 {
             println!("  {}", x.as_str().unwrap_or(""));
         }
     }
-    let base = prepared(role, state.min(6));
+    let base = prepared(role, state.min(7));
     let refs: Vec<&Hostile> = pk.iter().collect();
     let (o1, v) = run_case(&base, &refs);
     let (o2, _) = run_case(&base, &refs);
